@@ -1681,7 +1681,9 @@ def _repair_store_checks_the_canvas_used():
         return out
 
     def store(cls, wcls, canvas):
-        if canvas.cacheable and getattr(canvas, "depends_on", None) is None:
+        if canvas.cacheable:
+            # also when the widget named its dependencies itself (set_depends, e.g. Padding): the child canvases
+            # it was built from are still what decides
             for c in used(canvas):
                 if not any(ref() is c for ref in cls._widgets.get(c.widget_info[0], {}).values()):
                     return None
@@ -1749,13 +1751,23 @@ def _caused_by(fid, case):
 
 _DIFF = ("content-differs", "cursor-differs")
 
+def _has_uncached_widget(case):
+    """the tree can contain a widget whose rendering is not cached: in the spec, planted, or inserted by a mutator
+    (new_spec(k >= 40)); any change below the uncached child canvas then goes unnoticed, not only the probe's own"""
+    if any(s["cls"] == "NCDeco" or s["cls"] == "Probe" and s["cache"] != "cached" for s in _walk(case["spec"])):
+        return True
+    if any(k >= 40 for _n, k in case.get("plant", [])):
+        return True
+    return any(o[0].lstrip("~") in ("mut", "again", "lb") and max(o[-2:]) >= 40 for o in case["ops"])
+
+
 KNOWN = {
     # CanvasCache.store() caches a parent canvas when each child WIDGET has some canvas in the cache; the child canvas
     # actually used may be an uncached one (it shows a no_cache / uncacheable descendant that the cached one, rendered
     # at another size or scroll position, does not show): the parent is then invalidated by nothing below that child
     "C06-parent-cached-over-uncached-child-canvas": lambda sub, case, v: sub == "hist"
     and v.clause in _DIFF
-    and ("NCProbe.set_value" in v.message or "UCProbe.set_value" in v.message or "NCDeco" in v.message)
+    and _has_uncached_widget(case)
     and _caused_by("C06-parent-cached-over-uncached-child-canvas", case),
     # (C06-listbox-valign-no-invalidate was fixed in /repo by 6fefaa1; replays/C06/fixed_listbox_valign_no_invalidate.json)
     # Edit.render() calls Text.render() through Text's cache wrapper, whose key ignores focus (Text.ignore_focus);
